@@ -142,8 +142,23 @@ def gen_keysounds(rng):
     `{Sample, Volume}` entries"""
     r = rng.random()
     k = 0 if r < 0.4 else 1 if r < 0.6 else rng.choice([2, 2, 3, 4])
-    if rng.random() < 0.25:
+    r = rng.random()
+    if r < 0.3:
+        # records, as `QuaMap.read` hands them over unchanged (mutable state at depth 2 of the cell)
         return [dict(Sample=rng.randint(1, 9), Volume=rng.choice([20, 50, 100])) for _ in range(k)]
+    if r < 0.4:
+        # what a client may build: records that hold further lists / records (depth 3, 4), lists of lists
+        out = []
+        for _ in range(k):
+            q = rng.random()
+            if q < 0.4:
+                out.append(dict(Sample=rng.randint(1, 9), Volume=rng.choice([20, 50, 100]),
+                                Layers=[rng.choice(KS_NAMES) for _ in range(rng.randint(0, 2))]))
+            elif q < 0.7:
+                out.append(dict(Sample=rng.randint(1, 9), Opt=dict(Pan=rng.choice([0, 5]), Fx=[rng.randint(0, 3)])))
+            else:
+                out.append([rng.choice(KS_NAMES), [rng.randint(0, 3)]])
+        return out
     return [rng.choice(KS_NAMES) for _ in range(k)]
 
 
@@ -215,7 +230,12 @@ def gen_map(rng, game, keys, small=False, large=False):
         lists[slot] = gen_list(rng, game, slot, keys, n, flags)
     if not lists["hits"]["cols"]["offset"] and not lists["holds"]["cols"]["offset"]:
         lists["hits"] = gen_list(rng, game, "hits", keys, rng.randint(1, 4), flags)
-    return dict(lists=lists, meta=gen_meta(rng, game, keys, True))
+    out = dict(lists=lists, meta=gen_meta(rng, game, keys, True))
+    if game == "quaver":
+        # a third of the Quaver charts reach the pool through the real reader (`QuaMap.read` of the chart's own text):
+        # cells, records and metadata are then the objects the reader makes
+        out["via"] = rng.choice(["build", "build", "read"])
+    return out
 
 
 def gen_meta(rng, game, keys, per_map):
@@ -463,6 +483,28 @@ def corpus():
                            bpms=_lst(dict(offset=[0], bpm=[120])), svs=_lst(dict(offset=[], multiplier=[]))),
                 meta=dict(title="k", mode="Keys4", tags=[]))
     c.append(_h("quaver", 4, [quak], [_st("write.quaver"), _st("map.rate", by=2), _st("write.quaver", recent=True), _st("map.deepcopy")]))
+    # mutable state at depth >= 2 inside object cells: key sound RECORDS (what `QuaMap.read` hands over), records that
+    # hold lists / records (what a client may build); every operation built on the list-level deep copy, on a built
+    # chart and on one that came through the reader
+    rec = lambda s_, v_: dict(Sample=s_, Volume=v_)
+    for via in ("build", "read"):
+        quar = dict(lists=dict(hits=_lst(dict(offset=[0, 500, 1000], column=[0, 1, 2],
+                                              keysounds=[[rec(1, 80), rec(2, 40)], [], ["a.ogg"]])),
+                               holds=_lst(dict(offset=[1000, 2500], column=[2, 0], length=[800, 100], keysounds=[[rec(2, 55)], []])),
+                               bpms=_lst(dict(offset=[0], bpm=[120])), svs=_lst(dict(offset=[0], multiplier=[1]))),
+                    meta=dict(title="r", mode="Keys4", tags=["p"]), via=via)
+        c.append(_h("quaver", 4, [quar], [_st("list.deepcopy", src=0), _st("list.move_start_to", src=0, to=100, at="any"),
+                                           _st("list.move_end_to", src=1, to=5000, at="any"), _st("map.deepcopy"),
+                                           _st("map.rate", by=2), _st("alg.full_ln", gap=150, thres=100),
+                                           _st("map.rate", recent=True, by=0.5), _st("write.quaver")]))
+    quan = dict(lists=dict(hits=_lst(dict(offset=[0, 500], column=[0, 1],
+                                          keysounds=[[dict(Sample=1, Volume=80, Layers=["a.ogg", "b.ogg"])],
+                                                     [dict(Sample=2, Opt=dict(Pan=5, Fx=[1]))]])),
+                           holds=_lst(dict(offset=[1000], column=[2], length=[800], keysounds=[[["z.wav", [3]]]])),
+                           bpms=_lst(dict(offset=[0], bpm=[120])), svs=_lst(dict(offset=[], multiplier=[]))),
+                meta=dict(title="n", mode="Keys4", tags=[]))
+    c.append(_h("quaver", 4, [quan], [_st("list.deepcopy", src=0), _st("list.move_end_to", src=1, to=100, at="any"),
+                                       _st("map.rate", by=2), _st("alg.full_ln", gap=50, thres=25), _st("map.deepcopy", recent=True)]))
     # move to where the list already is (first / last offset, tail included for holds), and an empty list
     c.append(_h("osu", 4, [osu1], [_st("list.move_start_to", src=0, to=0, at="first"), _st("list.move_end_to", src=0, to=0, at="last"),
                                    _st("list.move_end_to", src=1, to=0, at="last"), _st("list.move_start_to", src=1, to=0, at="same")]))
@@ -501,6 +543,8 @@ def valid(case):
             return False
         for m in case["maps"]:
             if set(m["lists"]) != set(SLOTS[case["game"]]):
+                return False
+            if m.get("via", "build") not in ("build", "read"):
                 return False
             for slot, l in m["lists"].items():
                 n = len(l["cols"]["offset"])
@@ -550,7 +594,7 @@ def build_list(cls, spec):
             if c == "sample" and dt == object or (c == "sample" and vals and isinstance(vals[0], str)):
                 vals = [v.encode("ascii") for v in vals]
             if c == "keysounds":
-                vals = [[dict(x) if isinstance(x, dict) else x for x in v] for v in vals]
+                vals = [_fresh(v) for v in vals]
         else:
             d = defaults.get(c)
             vals = [list(d) if isinstance(d, list) else d for _ in range(n)]
@@ -579,6 +623,15 @@ def build_list(cls, spec):
     return tl
 
 
+def _fresh(v):
+    """the case's JSON value as objects of its own (no object of the case is handed to the code)"""
+    if isinstance(v, list):
+        return [_fresh(x) for x in v]
+    if isinstance(v, dict):
+        return {k: _fresh(x) for k, x in v.items()}
+    return v
+
+
 def build_map(game, spec):
     k = K(game)
     m = k["map"]()
@@ -592,6 +645,11 @@ def build_map(game, spec):
         if isinstance(v, list):
             v = list(v)
         setattr(m, key, v)
+    if game == "quaver" and spec.get("via") == "read":
+        try:
+            m = k["map"].read(m.write().split("\n"))
+        except Exception:
+            pass                  # not every generated chart has a text the reader takes; the built chart is used then
     return m
 
 
@@ -839,16 +897,89 @@ def aliased(a, b):
 
 # ============================================================================================ in-place mutation probe
 
+MARK = "~c14~"
+
+
+def _changed(x):
+    """a value of the same kind as x that differs from it (what a client's edit of a record looks like)"""
+    if isinstance(x, bool):
+        return not x
+    if isinstance(x, (int, float)):
+        return x + 1
+    if isinstance(x, str):
+        return x + "~"
+    if isinstance(x, bytes):
+        return x + b"~"
+    return MARK
+
+
+def _is_mut(x):
+    return isinstance(x, (list, dict, set))
+
+
+def has_nested(v):
+    """a cell object that holds further mutable objects (depth >= 2: records of a key sound list, lists in records)"""
+    if isinstance(v, list):
+        return any(_is_mut(x) for x in v)
+    if isinstance(v, dict):
+        return any(_is_mut(x) for x in v.values())
+    return False
+
+
+def edit_inside(v, undo, seen, top=True):
+    """the client edits a cell object IN PLACE at every depth: every element / value that is itself mutable is edited
+    recursively (a record of a key sound list: every field gets another value, a field is added; a list inside a
+    record: elements replaced, one appended), scalar elements are replaced by different ones.  The top-level
+    object's own membership is left to the caller (`top`)."""
+    if id(v) in seen:
+        return
+    seen.add(id(v))
+    if isinstance(v, list):
+        for i, x in enumerate(list(v)):
+            if _is_mut(x):
+                edit_inside(x, undo, seen, False)
+            else:
+                undo.append(("set", v, i, x))
+                v[i] = _changed(x)
+        if not top:
+            v.append(MARK)
+            undo.append(("list", v, None))
+    elif isinstance(v, dict):
+        for k, x in list(v.items()):
+            if _is_mut(x):
+                edit_inside(x, undo, seen, False)
+            else:
+                undo.append(("set", v, k, x))
+                v[k] = _changed(x)
+        if not top:
+            v[MARK] = 1
+            undo.append(("dict", v, None))
+    elif isinstance(v, set):
+        if not top:
+            v.add(MARK)
+            undo.append(("setadd", v, None))
+
+
 def mutate_result(cells, heap, deep):
-    """in-place change of every buffer / container of the given cells; returns an undo list"""
+    """in-place change of every buffer / container of the given cells; returns an undo list.
+    deep = False: numeric buffers bumped, object cells REPLACED, containers get a member;
+    deep = True: the cell objects themselves (lists inside object columns) get a member;
+    deep = "nested": everything INSIDE the cell objects and inside the containers is edited at every depth."""
     import numpy as np
     import pandas as pd
     undo = []
+    seen = set()
     for r in cells:
         o = heap.objs[r]
         if is_leaf(o):
             for buf in buffers(o):
                 if buf.size == 0:
+                    continue
+                if deep == "nested":
+                    if buf.dtype == object:
+                        for v in buf.reshape(-1).tolist():
+                            if _is_mut(v):
+                                edit_inside(v, undo, seen, True)
                     continue
                 if not buf.flags.writeable:
                     continue
@@ -859,11 +990,18 @@ def mutate_result(cells, heap, deep):
                 else:
                     _bump(buf, deep, undo)
                 undo.append(("buf", buf, saved))
+        elif deep == "nested":
+            if isinstance(o, (list, dict)):
+                # members that are cells themselves are edited as cells of the result; scalars are replaced here
+                for k, x in (list(enumerate(o)) if isinstance(o, list) else list(o.items())):
+                    if not is_cell(x) and not isinstance(x, tuple):
+                        undo.append(("set", o, k, x))
+                        o[k] = _changed(x)
         elif isinstance(o, list):
-            o.append("~c14~")
+            o.append(MARK)
             undo.append(("list", o, None))
         elif isinstance(o, dict):
-            o["~c14~"] = 1
+            o[MARK] = 1
             undo.append(("dict", o, None))
     return undo
 
@@ -875,16 +1013,18 @@ def _bump(buf, deep, undo):
     elif buf.dtype.kind in "iuf":
         buf += 1
     elif buf.dtype == object:
-        flat = buf.reshape(-1) if buf.flags.c_contiguous else None
         it = np.nditer(buf, flags=["refs_ok", "multi_index"])
         for _ in it:
             ix = it.multi_index
             v = buf[ix]
             if isinstance(v, list) and deep:
-                v.append("~c14~")                 # the cell object itself (deep copies must not share it)
+                v.append(MARK)                 # the cell object itself (deep copies must not share it)
                 undo.append(("list", v, None))
+            elif isinstance(v, dict) and deep:
+                v[MARK] = 1
+                undo.append(("dict", v, None))
             elif isinstance(v, list):
-                buf[ix] = list(v) + ["~c14~"]
+                buf[ix] = list(v) + [MARK]
             elif isinstance(v, str):
                 buf[ix] = v + "~"
             elif isinstance(v, bytes):
@@ -892,20 +1032,25 @@ def _bump(buf, deep, undo):
             elif isinstance(v, type):
                 buf[ix] = int
             else:
-                buf[ix] = "~c14~"
+                buf[ix] = MARK
     elif buf.dtype.kind in "SU":
         buf[...] = "~"
 
 
 def undo_mutation(undo):
-    for kind, o, saved in reversed(undo):
+    for ent in reversed(undo):
+        kind, o = ent[0], ent[1]
         if kind == "buf":
-            o[...] = saved
+            o[...] = ent[2]
         elif kind == "list":
-            if o and o[-1] == "~c14~":
+            if o and o[-1] == MARK:
                 o.pop()
         elif kind == "dict":
-            o.pop("~c14~", None)
+            o.pop(MARK, None)
+        elif kind == "setadd":
+            o.discard(MARK)
+        elif kind == "set":
+            o[ent[2]] = ent[3]
 
 
 # ============================================================================================ operations
@@ -1275,6 +1420,16 @@ def observe(case):
                     ev["after_deep"] = snap()[:len(after_all)]
                 finally:
                     undo_mutation(undo)
+                # probe 3 (results made by deepcopy): everything INSIDE the cell objects and containers, at every
+                # depth — a record of a key sound list gets other field values and a new field, a list inside a
+                # record other elements; scalar members of lists / dicts are replaced
+                undo = mutate_result(res_cells, heap, deep="nested")
+                if undo:
+                    tags.append("probe:nested")
+                    try:
+                        ev["after_nested"] = snap()[:len(after_all)]
+                    finally:
+                        undo_mutation(undo)
             if snap()[:len(after_all)] != after_all:
                 tags.append("restore-failed")
         events.append(ev)
@@ -1309,7 +1464,7 @@ def run(case, drv):
                 agree = False
                 bad.append(dict(step=ev["step"], op=ev["sig"], raised=ev["raised"], changed=v["written"]))
             continue
-        e_ok = v["frame_ok"] and v["fresh_ok"] and v["mut_ok"] and v["deep_ok"]
+        e_ok = v["frame_ok"] and v["fresh_ok"] and v["mut_ok"] and v["deep_ok"] and v["nested_ok"]
         if not e_ok:
             ok = False
             kf_e = None          # D38 / D39 are repaired: no open finding touches this property
@@ -1317,7 +1472,8 @@ def run(case, drv):
             bad.append(dict(step=ev["step"], op=ev["sig"], frame_ok=v["frame_ok"], fresh_ok=v["fresh_ok"], mut_ok=v["mut_ok"],
                             deep_ok=v["deep_ok"], written=_name_refs(ev, v["written"]), shared=_name_refs(ev, v["shared"]),
                             reached_by_mutation=_name_refs(ev, v["mut_changed"]),
-                            reached_through_cell_objects=_name_refs(ev, v["deep_changed"]), kf=kf_e, diff=_diff(obs, ev, v)))
+                            reached_through_cell_objects=_name_refs(ev, v["deep_changed"]), nested_ok=v["nested_ok"],
+                            reached_through_nested_values=_name_refs(ev, v["nested_changed"]), kf=kf_e, diff=_diff(obs, ev, v)))
         if not v["within"] or not v["known"] or not v["mut_within"]:
             agree = False
             if e_ok:
@@ -1354,10 +1510,11 @@ def _diff(obs, ev, v):
     """first differing cell, for the replay's detail"""
     fr = obs["frames"]
     out = []
-    for r in (v["written"] + v["mut_changed"] + v["deep_changed"])[:2]:
+    for r in (v["written"] + v["mut_changed"] + v["deep_changed"] + v["nested_changed"])[:2]:
         b0 = fr[ev["before"][r]] if r < len(ev["before"]) else None
         b = fr[ev["after"][r]] if r < len(ev["after"]) else None
-        src = ev.get("after_mut") if r in v["mut_changed"] else ev.get("after_deep") if r in v["deep_changed"] else None
+        src = ev.get("after_mut") if r in v["mut_changed"] else ev.get("after_deep") if r in v["deep_changed"] \
+            else ev.get("after_nested") if r in v["nested_changed"] else None
         out.append(dict(ref=r, before=_short(b0), after_call=_short(b) if b != b0 else "same",
                         after_mutating_result=_short(fr[src[r]]) if src else None))
     return out
